@@ -62,6 +62,12 @@ CHECKS.update({
    note="UB is observed through behaviour, not proven absent. Builder-stage failures (e.g. debug-only assertions in connect) are outside the runner property and discarded (counted).", ref="DESIGN.md §3 C19", engine="E1"),
 })
 
+CHECKS.update({
+ "C06": dict(cat="fault_enumeration", tech="property-based fault injection (proptest) on proofs of challenger circuits: forged non-fixed witness slots, re-executed by the real executors, proven and verified; native transcript as oracle",
+   text="Challenger histories (C05's generator) in the degree-4 Poseidon2 configurations are compiled, executed honestly, and one witness slot the verifier does not fix (permutation outputs, decomposition hints, recomposed values, intermediate ALU values) is forged in place or with re-execution of everything downstream; the forged traces are proven and verified. Accepted implies every sampled challenge equals the native transcript of the observed values. Rate outputs and ALU values are bound (attacks rejected); capacity outputs, decomposition hints and recomposed values are listed findings.",
+   note="Configurations limited to degree-4 Poseidon2 (BabyBear, KoalaBear) where the harness has prover table support. Internal permutation round columns are regenerated honestly.", ref="DESIGN.md §3 C06", engine="E2+E4"),
+})
+
 NOT_YET = {}
 
 def main():
